@@ -506,11 +506,37 @@ def check_stale(project: Project, rep):
             used = {x.id for x in ast.walk(val) if isinstance(x, ast.Name)}
             def_deps[(nd.id, name)] = used
     n_checked = 0
+    # names whose value can reach what the function returns (backward slice over assignments and stores): a stale quantity
+    # that only feeds a trace / log / self-check line is no term of the expansion
+    relevant = {x.id for r_ in ast.walk(f) if isinstance(r_, ast.Return) and r_.value is not None
+                for x in ast.walk(r_.value) if isinstance(x, ast.Name)}
+    grew = True
+    while grew:
+        grew = False
+        for st_ in ast.walk(f):
+            tg = st_.targets if isinstance(st_, ast.Assign) else [st_.target] if isinstance(st_, (ast.AugAssign, ast.AnnAssign)) else []
+            bases = set()
+            for t_ in tg:
+                for x in ast.walk(t_):
+                    if isinstance(x, ast.Name):
+                        bases.add(x.id)
+            if bases & relevant and getattr(st_, "value", None) is not None:
+                new_ = {x.id for x in ast.walk(st_.value) if isinstance(x, ast.Name)} | bases
+                if not new_ <= relevant:
+                    relevant |= new_
+                    grew = True
     for nd in cfg.nodes:
         a = nd.ast
         if a is None or nd.kind not in ("stmt", "return", "test"):
             continue
         exprs = [a.test] if nd.kind == "test" and hasattr(a, "test") else ([a.value] if hasattr(a, "value") and a.value is not None else [])
+        if isinstance(a, ast.Expr) and isinstance(a.value, ast.Call):
+            # a call made for its effect (a trace / log / self-check line): what it is handed is not a term of the expansion
+            continue
+        if isinstance(a, (ast.Assign, ast.AugAssign, ast.AnnAssign)):
+            tg_ = a.targets if isinstance(a, ast.Assign) else [a.target]
+            if not ({x.id for t_ in tg_ for x in ast.walk(t_) if isinstance(x, ast.Name)} & relevant):
+                continue   # defines something that never reaches the result
         for ex in exprs:
             for x in ast.walk(ex):
                 if not (isinstance(x, ast.Name) and isinstance(x.ctx, ast.Load)):
